@@ -873,6 +873,12 @@ theorem rawAny_noargs (asy : Bool) (bs : List Bound) (h : ∀ b ∈ bs, b.2 = no
   intro b hb
   simp [rawAssignFails, given, h b hb]
 
+theorem marshalAny_noargs (bs : List Bound) (h : ∀ b ∈ bs, b.2 = none) :
+    bs.any marshalFails = false := by
+  simp only [List.any_eq_false]
+  intro b hb
+  simp [marshalFails, given, truthy, h b hb]
+
 theorem rawAssignFails_async_sync (b : Bound) (h : rawAssignFails false b = false) :
     rawAssignFails true b = false := by
   simpa [rawAssignFails] using h
@@ -895,17 +901,23 @@ theorem value_error_iff_mixed (samePkg asy : Bool) (req : ReqArg) (bs : List Bou
       simp only [call, hm, Bool.false_eq_true, if_false] at h
       split at h
       · simp at h
-      · cases samePkg <;> cases asy <;> cases req <;> simp at h
-        exact applyAsyncCross_ne_valueError bs .mnil h
+      · split at h
+        · simp at h
+        · cases samePkg <;> cases asy <;> cases req <;> simp at h
+          exact applyAsyncCross_ne_valueError bs .mnil h
   · rintro ⟨h1, h2⟩
     simp [call, h1, h2]
 
-/-- **AttributeError is raised exactly when** the call is not mixed, the request is of the API's own
-package, and some GIVEN key ends in a field owned by a raw protobuf message that protobuf refuses to
-assign (`rawAssignFails`: a singular message field, in both clients; repeated/map fields are extended / updated since `fix:` 9d33fc0). -/
+/-- **AttributeError is raised exactly when** the call is not mixed and some GIVEN key either ends in a field
+owned by a raw protobuf message that protobuf refuses to assign, in a request of the service's own package
+(`rawAssignFails`: a singular message field, in both clients; repeated/map fields are extended / updated since
+`fix:` 9d33fc0), or runs INTO a marshalled well-known type (`marshalFails`: `ttl.seconds`) in a client that
+applies keys by attribute (`appliesByAttr`: every client but the asyncio one of a cross-package request). -/
 theorem attribute_error_iff (samePkg asy : Bool) (req : ReqArg) (bs : List Bound) :
     call samePkg asy req bs = .error .attributeError ↔
-      ((req.isGiven && hasFlattened bs) = false ∧ samePkg = true ∧ bs.any (rawAssignFails asy) = true) := by
+      ((req.isGiven && hasFlattened bs) = false ∧
+       ((samePkg = true ∧ bs.any (rawAssignFails asy) = true) ∨
+        (appliesByAttr samePkg asy = true ∧ bs.any marshalFails = true))) := by
   constructor
   · intro h
     by_cases hm : (req.isGiven && hasFlattened bs) = true
@@ -913,20 +925,27 @@ theorem attribute_error_iff (samePkg asy : Bool) (req : ReqArg) (bs : List Bound
     · simp only [call, hm, Bool.false_eq_true, if_false] at h
       by_cases hr : (samePkg && bs.any (rawAssignFails asy)) = true
       · simp only [Bool.and_eq_true] at hr
-        exact ⟨by simpa using hm, hr.1, hr.2⟩
-      · exfalso
-        simp only [hr, Bool.false_eq_true, if_false] at h
-        cases samePkg <;> cases asy <;> cases req <;> simp at h
-        exact applyAsyncCross_ne_attributeError bs .mnil h
-  · rintro ⟨h1, h2, h3⟩
-    simp [call, h1, h2, h3]
+        exact ⟨by simpa using hm, Or.inl ⟨hr.1, hr.2⟩⟩
+      · by_cases hw : (appliesByAttr samePkg asy && bs.any marshalFails) = true
+        · simp only [Bool.and_eq_true] at hw
+          exact ⟨by simpa using hm, Or.inr ⟨hw.1, hw.2⟩⟩
+        · exfalso
+          simp only [hr, hw, Bool.false_eq_true, if_false] at h
+          cases samePkg <;> cases asy <;> cases req <;> simp at h
+          exact applyAsyncCross_ne_attributeError bs .mnil h
+  · rintro ⟨h1, h2 | h2⟩
+    · simp [call, h1, h2.1, h2.2]
+    · by_cases hr : (samePkg && bs.any (rawAssignFails asy)) = true
+      · simp [call, h1, hr]
+      · simp [call, h1, hr, h2.1, h2.2]
 
 /-- **kwargs call ≡ request call** (same package, both clients): calling with flattened arguments
 sends exactly what is sent when the caller builds the request by setting those fields and passes
 it as `request` (object or dict) — provided no given key runs into protobuf's assignment rules for
 raw sub-messages (`rawAssignFails`; FORCED, see `raw_owner_message_counterexample`). -/
 theorem kwargs_equiv_request (asy : Bool) (bs : List Bound)
-    (hg : ∀ b ∈ bs, good b = true) (hpf : PrefixFree bs) (hraw : bs.any (rawAssignFails asy) = false) :
+    (hg : ∀ b ∈ bs, good b = true) (hpf : PrefixFree bs) (hraw : bs.any (rawAssignFails asy) = false)
+    (hmar : bs.any marshalFails = false) :
     call true asy .none bs = .ok (setAll bs .mnil) ∧
     call true asy (.inst (setAll bs .mnil)) (bs.map fun b => (b.1, none)) = .ok (setAll bs .mnil) ∧
     call true asy (.dict (setAll bs .mnil)) (bs.map fun b => (b.1, none)) = .ok (setAll bs .mnil) := by
@@ -935,28 +954,35 @@ theorem kwargs_equiv_request (asy : Bool) (bs : List Bound)
   have hnf : hasFlattened (bs.map fun b : Bound => ((b.1, none) : Bound)) = false := by
     simp [hasFlattened, given]
   have hnr := rawAny_noargs asy _ hno
+  have hnm := marshalAny_noargs _ hno
   have hu := unset_mnil bs hg
   cases asy
   · refine ⟨?_, ?_, ?_⟩
-    · simp [call, ReqArg.isGiven, hraw, apply_sync_eq_set true bs .mnil hg hpf hu]
-    · simp [call, hnf, hnr]
-    · simp [call, hnf, hnr, applySync_noargs true _ _ hno]
+    · simp [call, ReqArg.isGiven, hraw, hmar, apply_sync_eq_set true bs .mnil hg hpf hu]
+    · simp [call, hnf, hnr, hnm]
+    · simp [call, hnf, hnr, hnm, applySync_noargs true _ _ hno]
   · refine ⟨?_, ?_, ?_⟩
-    · simp [call, ReqArg.isGiven, hraw, apply_async_eq_set bs .mnil hg hpf hu]
-    · simp [call, hnf, hnr, applyAsyncSame_noargs _ _ hno]
-    · simp [call, hnf, hnr, applyAsyncSame_noargs _ _ hno]
+    · simp [call, ReqArg.isGiven, hraw, hmar, apply_async_eq_set bs .mnil hg hpf hu]
+    · simp [call, hnf, hnr, hnm, applyAsyncSame_noargs _ _ hno]
+    · simp [call, hnf, hnr, hnm, applyAsyncSame_noargs _ _ hno]
 
 /-- the same for a dependency-package request (sync: two passes; asyncio: the pb2 constructor). -/
 theorem kwargs_equiv_request_cross (asy : Bool) (bs : List Bound)
-    (hg : ∀ b ∈ bs, good b = true) (hpf : PrefixFree bs) (hc : asy = true → ∀ b ∈ bs, ctorOk b = true) :
+    (hg : ∀ b ∈ bs, good b = true) (hpf : PrefixFree bs) (hc : asy = true → ∀ b ∈ bs, ctorOk b = true)
+    (hmar : asy = false → bs.any marshalFails = false) :
     call false asy .none bs = .ok (setAll bs .mnil) ∧
     call false asy (.inst (setAll bs .mnil)) (bs.map fun b => (b.1, none)) = .ok (setAll bs .mnil) := by
+  have hno : ∀ b ∈ (bs.map fun b : Bound => ((b.1, none) : Bound)), b.2 = none := by
+    intro b hb; obtain ⟨c, _, rfl⟩ := List.mem_map.mp hb; rfl
   have hnf : hasFlattened (bs.map fun b : Bound => ((b.1, none) : Bound)) = false := by
     simp [hasFlattened, given]
+  have hnm := marshalAny_noargs _ hno
   have hu := unset_mnil bs hg
   cases asy
-  · exact ⟨by simp [call, ReqArg.isGiven, apply_sync_eq_set false bs .mnil hg hpf hu], by simp [call, hnf]⟩
-  · exact ⟨by simp [call, ReqArg.isGiven, apply_async_cross_eq_set bs .mnil (hc rfl)], by simp [call, hnf]⟩
+  · exact ⟨by simp [call, ReqArg.isGiven, appliesByAttr, hmar rfl, apply_sync_eq_set false bs .mnil hg hpf hu],
+           by simp [call, hnf, hnm]⟩
+  · exact ⟨by simp [call, ReqArg.isGiven, appliesByAttr, apply_async_cross_eq_set bs .mnil (hc rfl)],
+           by simp [call, hnf, appliesByAttr]⟩
 
 /-- **Sync and asyncio clients behave identically**: same request or same exception, for every form
 of `request` and every argument list within the hypotheses (the raw-assignment hypothesis is stated
@@ -964,35 +990,41 @@ for the sync client; since `fix:` 9d33fc0 the two clients refuse exactly the sam
 theorem sync_async_agree (samePkg : Bool) (req : ReqArg) (bs : List Bound)
     (hg : ∀ b ∈ bs, good b = true) (hpf : PrefixFree bs)
     (hc : samePkg = false → ∀ b ∈ bs, ctorOk b = true)
-    (hraw : samePkg = true → bs.any (rawAssignFails false) = false) :
+    (hraw : samePkg = true → bs.any (rawAssignFails false) = false)
+    (hmar : samePkg = false → bs.any marshalFails = false) :
     call samePkg false req bs = call samePkg true req bs := by
   by_cases hm : (req.isGiven && hasFlattened bs) = true
   · simp [call, hm]
   · have hu := unset_mnil bs hg
     cases samePkg
-    · cases req with
+    · have hw := hmar rfl
+      cases req with
       | none =>
-        simp [call, ReqArg.isGiven, apply_sync_eq_set false bs .mnil hg hpf hu,
+        simp [call, ReqArg.isGiven, appliesByAttr, hw, apply_sync_eq_set false bs .mnil hg hpf hu,
               apply_async_cross_eq_set bs .mnil (hc rfl)]
       | inst r =>
         have hf : hasFlattened bs = false := by simpa [ReqArg.isGiven] using hm
-        simp [call, hf]
+        simp [call, hf, hw, appliesByAttr]
       | dict r =>
         have hf : hasFlattened bs = false := by simpa [ReqArg.isGiven] using hm
-        simp [call, hf]
+        simp [call, hf, hw, appliesByAttr]
     · have hs := hraw rfl
       have ha := rawAny_async_sync bs hs
-      cases req with
-      | none =>
-        simp [call, ReqArg.isGiven, hs, ha, apply_sync_eq_set true bs .mnil hg hpf hu,
-              apply_async_eq_set bs .mnil hg hpf hu]
-      | inst r =>
-        have hf : hasFlattened bs = false := by simpa [ReqArg.isGiven] using hm
-        simp [call, hf, hs, ha, applyAsyncSame_noargs bs r (hasFlattened_false hf)]
-      | dict r =>
-        have hf : hasFlattened bs = false := by simpa [ReqArg.isGiven] using hm
-        simp [call, hf, hs, ha, applyAsyncSame_noargs bs r (hasFlattened_false hf),
-              applySync_noargs true bs r (hasFlattened_false hf)]
+      by_cases hw : bs.any marshalFails = true
+      · -- a key INTO a marshalled well-known type: both clients raise the same AttributeError
+        simp [call, hm, hs, ha, hw, appliesByAttr]
+      · have hw : bs.any marshalFails = false := by simpa using hw
+        cases req with
+        | none =>
+          simp [call, ReqArg.isGiven, hs, ha, hw, apply_sync_eq_set true bs .mnil hg hpf hu,
+                apply_async_eq_set bs .mnil hg hpf hu]
+        | inst r =>
+          have hf : hasFlattened bs = false := by simpa [ReqArg.isGiven] using hm
+          simp [call, hf, hs, ha, hw, applyAsyncSame_noargs bs r (hasFlattened_false hf)]
+        | dict r =>
+          have hf : hasFlattened bs = false := by simpa [ReqArg.isGiven] using hm
+          simp [call, hf, hs, ha, hw, applyAsyncSame_noargs bs r (hasFlattened_false hf),
+                applySync_noargs true bs r (hasFlattened_false hf)]
 
 /-- what the sync client may assign to a raw sub-message, the asyncio client may too (since `fix:`
 9d33fc0 also conversely: `rawAssignFails` no longer depends on the client). -/
@@ -1137,12 +1169,12 @@ theorem cross_reserved_counterexample :
     fieldsMappingP exSchema true exDep [["type"]] = .error (.keyError "type_") := by decide
 
 /-- slots of `parent`, `book`, `book.inner.marks` (repeated), `tags` (repeated), `labels` (map) -/
-def sParent : Slot := ⟨[1], false, false, false, some 1, false, false⟩
-def sBook : Slot := ⟨[2], false, false, false, some 2, false, false⟩
-def sMarks : Slot := ⟨[2, 5, 7], true, false, false, none, false, false⟩
-def sTitle : Slot := ⟨[2, 5, 4], false, false, false, some 4, false, false⟩
-def sTags : Slot := ⟨[4], true, false, false, some 4, false, false⟩
-def sLabels : Slot := ⟨[5], true, true, false, some 5, false, false⟩
+def sParent : Slot := ⟨[1], false, false, false, some 1, false, false, false⟩
+def sBook : Slot := ⟨[2], false, false, false, some 2, false, false, false⟩
+def sMarks : Slot := ⟨[2, 5, 7], true, false, false, none, false, false, false⟩
+def sTitle : Slot := ⟨[2, 5, 4], false, false, false, some 4, false, false, false⟩
+def sTags : Slot := ⟨[4], true, false, false, some 4, false, false, false⟩
+def sLabels : Slot := ⟨[5], true, true, false, some 5, false, false, false⟩
 
 /-- the hypotheses of the equivalence theorems hold on a non-trivial argument list (dotted key,
 list, map, a falsy list for a top-level key, an argument left out) and the result is what one expects -/
@@ -1163,7 +1195,7 @@ example : call true false (.inst .mnil) [(sParent, some (.atom ""))] = .error .v
 /-- **dependency-package request + dotted key** (`SetIamPolicyRequest`, "resource,policy.version"):
 the sync client assigns along the path, the asyncio client passes the terminal name to the pb2
 constructor — which has no such top-level field, even when the argument is `None`. -/
-def exCross : List Bound := [(⟨[1], false, false, false, some 1, true, false⟩, some (.atom "r")), (⟨[2, 1], false, false, false, none, true, false⟩, none)]
+def exCross : List Bound := [(⟨[1], false, false, false, some 1, true, false, false⟩, some (.atom "r")), (⟨[2, 1], false, false, false, none, true, false, false⟩, none)]
 theorem async_cross_dotted_counterexample :
     call false false .none exCross = .ok (.mcons 1 (.atom "r") .mnil) ∧
     call false true .none exCross = .error .ctorUnknownField := by decide
@@ -1183,9 +1215,9 @@ theorem falsy_dotted_counterexample :
 
 /-- slots of `mask.paths` (repeated, owner `google.protobuf.FieldMask` — a raw protobuf class) and of
 `op.error` (singular message, owner `google.longrunning.Operation`) inside a same-package request -/
-def sMaskPaths : Slot := ⟨[6, 1], true, false, false, none, true, false⟩
-def sOpError : Slot := ⟨[7, 4], false, false, false, none, true, true⟩
-def sStatusCode : Slot := ⟨[8, 1], false, false, false, none, true, false⟩
+def sMaskPaths : Slot := ⟨[6, 1], true, false, false, none, true, false, false⟩
+def sOpError : Slot := ⟨[7, 4], false, false, false, none, true, true, false⟩
+def sStatusCode : Slot := ⟨[8, 1], false, false, false, none, true, false, false⟩
 
 /-- **regression for `fix:` 9d33fc0 — a repeated field of a raw sub-message** (`update_mask.paths`,
 `status.details`, `policy.bindings`): the sync client used to execute `request.mask.paths = paths`
@@ -1234,9 +1266,424 @@ theorem sync_passes_partition (samePkg : Bool) (b : Bound) :
 
 /-- sub-package request (`acme.lib.v1.common.Sub0Request`, key `tags`: repeated, proto-plus owner,
 package differs from the service's): both clients send the list -/
-example : call false false .none [(⟨[2], true, false, false, some 2, false, false⟩, some (.list ["a", "b"]))] =
+example : call false false .none [(⟨[2], true, false, false, some 2, false, false, false⟩, some (.list ["a", "b"]))] =
       .ok (.mcons 2 (.list ["a", "b"]) .mnil) ∧
-    call false true .none [(⟨[2], true, false, false, some 2, false, false⟩, some (.list ["a", "b"]))] =
+    call false true .none [(⟨[2], true, false, false, some 2, false, false, false⟩, some (.list ["a", "b"]))] =
       .ok (.mcons 2 (.list ["a", "b"]) .mnil) := by decide
+
+/-! ## 5. Packages and layouts (second deepening round)
+
+The templates branch on two facts only: `method.input.ident.package != method.ident.package` and
+`field.meta.address.is_proto_plus_type`.  Both are functions of the packages of the declaring files
+(`crossPkgOf`, `isProtoPlusType`), so the theorems of §2/§3 — stated for an arbitrary `samePkg` and arbitrary
+owner flags — cover every layout; the theorems below say which point of the model each layout is. -/
+
+section Aux
+theorem dot_length : (".":String).length = 1 := by decide
+
+theorem append_sub_ne (p sub : String) : p ++ "." ++ sub ≠ p := by
+  have : (p ++ "." ++ sub).length ≠ p.length := by
+    rw [String.length_append, String.length_append, dot_length]; omega
+  intro h; rw [h] at this; exact this rfl
+end Aux
+
+/-- `is_proto_plus_type`, exactly: the API's proto package is a STRING prefix of the package, or the package is
+listed in `proto-plus-deps`. -/
+theorem isProtoPlusType_iff (n : Naming) (pkg : String) :
+    isProtoPlusType n pkg = true ↔ (n.protoPackage.toList <+: pkg.toList ∨ pkg ∈ n.protoPlusDeps) := by
+  simp [isProtoPlusType, List.isPrefixOf_iff_prefix]
+
+/-- the API's own package holds proto-plus types … -/
+theorem api_package_is_proto_plus (n : Naming) : isProtoPlusType n n.protoPackage = true := by
+  simp [isProtoPlusType, List.isPrefixOf_iff_prefix]
+
+/-- … and so does **every sub-package of the API, at any depth** (`sub` may itself be dotted). -/
+theorem sub_package_is_proto_plus (n : Naming) (sub : String) :
+    isProtoPlusType n (n.protoPackage ++ "." ++ sub) = true := by
+  simp [isProtoPlusType, String.toList_append, List.isPrefixOf_iff_prefix]
+
+/-- a `proto-plus-deps` package holds proto-plus types whatever it is called -/
+theorem proto_plus_dep_is_proto_plus (n : Naming) (pkg : String) (h : pkg ∈ n.protoPlusDeps) :
+    isProtoPlusType n pkg = true := by
+  simp [isProtoPlusType, h]
+
+/-- the prefix test is made on the dotted STRING, not on the package tuple: a sibling package whose last
+segment merely begins like the API's (`acme.lib.v1beta` next to `acme.lib.v1`) counts as proto-plus although it
+is not part of the API (run on the real `Address.is_proto_plus_type` by the harness, T2 `c05.packages`). -/
+theorem proto_plus_string_prefix_counterexample :
+    isProtoPlusType ⟨"acme.lib.v1", []⟩ "acme.lib.v1beta" = true ∧
+    isProtoPlusType ⟨"acme.lib.v1", []⟩ "acme.lib" = false ∧
+    isProtoPlusType ⟨"acme.lib.v1", ["google.iam.v1"]⟩ "google.iam.v1" = true ∧
+    isProtoPlusType ⟨"acme.lib.v1", ["google.iam.v1"]⟩ "google.rpc" = false := by decide
+
+/-- a request declared in the service's own package — wherever that is: the API root or a (nested)
+sub-package — is a same-package request -/
+theorem same_package_not_cross (p : String) : crossPkgOf p p = false := by simp [crossPkgOf]
+
+/-- **service in a package, request in a sub-package of it** (service `acme.lib.v1`, request
+`acme.lib.v1.common`; service `acme.lib.v1.admin`, request `acme.lib.v1.admin.deep`): the
+"different package" branch, although the request is a proto-plus type -/
+theorem sub_package_request_is_cross (svc sub : String) : crossPkgOf (svc ++ "." ++ sub) svc = true := by
+  simp [crossPkgOf, append_sub_ne]
+
+/-- **service in a sub-package, request in the package above** (service `acme.lib.v1.admin`, request
+`acme.lib.v1`): the "different package" branch as well -/
+theorem parent_package_request_is_cross (inp sub : String) : crossPkgOf inp (inp ++ "." ++ sub) = true := by
+  have := append_sub_ne inp sub
+  simp only [crossPkgOf, bne_iff_ne, ne_eq]
+  exact fun h => this h.symm
+
+theorem callOf_same_package (p : String) (asy : Bool) (req : ReqArg) (bs : List Bound) :
+    callOf p p asy req bs = call true asy req bs := by
+  simp [callOf, same_package_not_cross]
+
+theorem callOf_sub_package (svc sub : String) (asy : Bool) (req : ReqArg) (bs : List Bound) :
+    callOf svc (svc ++ "." ++ sub) asy req bs = call false asy req bs := by
+  simp [callOf, sub_package_request_is_cross]
+
+/-- **kwargs call ≡ request call in EVERY package layout** (service and request each in the root package, a
+sub-package, a nested or sibling sub-package, or the request in a dependency package), both clients: under
+the hypotheses of `kwargs_equiv_request` when the two packages coincide and of `kwargs_equiv_request_cross`
+when they differ. -/
+theorem kwargs_equiv_request_any_layout (svcPkg inputPkg : String) (asy : Bool) (bs : List Bound)
+    (hg : ∀ b ∈ bs, good b = true) (hpf : PrefixFree bs) (hmar : bs.any marshalFails = false)
+    (hsame : inputPkg = svcPkg → bs.any (rawAssignFails asy) = false)
+    (hcross : inputPkg ≠ svcPkg → asy = true → ∀ b ∈ bs, ctorOk b = true) :
+    callOf svcPkg inputPkg asy .none bs = .ok (setAll bs .mnil) ∧
+    callOf svcPkg inputPkg asy (.inst (setAll bs .mnil)) (bs.map fun b => (b.1, none)) = .ok (setAll bs .mnil) := by
+  by_cases h : inputPkg = svcPkg
+  · subst h
+    rw [callOf_same_package, callOf_same_package]
+    have := kwargs_equiv_request asy bs hg hpf (hsame rfl) hmar
+    exact ⟨this.1, this.2.1⟩
+  · have hx : crossPkgOf inputPkg svcPkg = true := by simp [crossPkgOf, h]
+    simp only [callOf, hx, Bool.not_true]
+    exact kwargs_equiv_request_cross asy bs hg hpf (hcross h) (fun _ => hmar)
+
+/-- **sync ≡ asyncio in every package layout** -/
+theorem sync_async_agree_any_layout (svcPkg inputPkg : String) (req : ReqArg) (bs : List Bound)
+    (hg : ∀ b ∈ bs, good b = true) (hpf : PrefixFree bs)
+    (hsame : inputPkg = svcPkg → bs.any (rawAssignFails false) = false)
+    (hcross : inputPkg ≠ svcPkg → (∀ b ∈ bs, ctorOk b = true) ∧ bs.any marshalFails = false) :
+    callOf svcPkg inputPkg false req bs = callOf svcPkg inputPkg true req bs := by
+  by_cases h : inputPkg = svcPkg
+  · subst h
+    rw [callOf_same_package, callOf_same_package]
+    exact sync_async_agree true req bs hg hpf (by simp) (fun _ => hsame rfl) (by simp)
+  · have hx : crossPkgOf inputPkg svcPkg = true := by simp [crossPkgOf, h]
+    simp only [callOf, hx, Bool.not_true]
+    exact sync_async_agree false req bs hg hpf (fun _ => (hcross h).1) (by simp) (fun _ => (hcross h).2)
+
+/-- **request + any flattened argument → ValueError, nothing sent, in every package layout** -/
+theorem mixed_call_rejected_any_layout (svcPkg inputPkg : String) (asy : Bool) (req : ReqArg) (bs : List Bound)
+    (hr : req.isGiven = true) (hk : ∃ b ∈ bs, b.2 ≠ none) :
+    callOf svcPkg inputPkg asy req bs = .error .valueError :=
+  mixed_call_rejected _ asy req bs hr hk
+
+/-- non-vacuity: a request of `acme.lib.v1.admin.deep` called through a service of `acme.lib.v1.admin`
+(dotted key, list, map, a key left out) -/
+example :
+    let bs : List Bound := [(sParent, some (.atom "p")), (sTags, some (.list ["a"])), (sLabels, some (.map [("k", "v")])), (sBook, none)]
+    (bs.all good = true) ∧ bs.any marshalFails = false ∧ (bs.all ctorOk = true) ∧
+    callOf "acme.lib.v1.admin" "acme.lib.v1.admin.deep" true .none bs =
+      .ok (.mcons 1 (.atom "p") (.mcons 4 (.list ["a"]) (.mcons 5 (.map [("k", "v")]) .mnil))) ∧
+    callOf "acme.lib.v1.admin" "acme.lib.v1.admin.deep" false .none bs =
+      callOf "acme.lib.v1.admin" "acme.lib.v1.admin" false .none bs := by decide
+
+/-- **in the "different package" branch the sync macro never ASSIGNS a repeated key** (first pass skips it,
+second pass extends / updates it when non-empty) — whatever the owner: also for the proto-plus request of a
+sub-package, where assignment would have worked (seeded change seed4_C05 broke exactly this complementarity). -/
+theorem cross_repeated_second_pass_only (b : Bound) (r : Val) (h : b.1.repeated = true) :
+    syncLoop1 false r b = r ∧
+    syncLoop2 false r b = (match b.2 with
+      | none => r
+      | some v => if truthy (some v) then
+          (if b.1.isMap then modifyAt b.1.path (updateOp v) r else modifyAt b.1.path (extendOp v) r) else r) := by
+  refine ⟨by simp [syncLoop1, h], ?_⟩
+  simp only [syncLoop2, h, Bool.not_false, Bool.true_or, Bool.and_self, if_true]
+  cases b.2 <;> rfl
+
+/-! ### the asyncio constructor call, characterised completely -/
+
+/-- the key as the constructor sees it: the TOP-LEVEL field named like the terminal field -/
+def retarget (b : Bound) : Bound :=
+  match b.1.ctor with
+  | some n => ({ b.1 with path := [n] }, b.2)
+  | none => b
+
+/-- **The asyncio client of a cross-package request** (`Request(f=f, …)`) raises ValueError iff some key's
+terminal name is not a top-level field of the request — given or not —, and otherwise sets, for every given key,
+the top-level field of that NAME: the right field when the key is top-level (`apply_async_cross_eq_set`), a
+different one when the key is dotted and the request happens to have a top-level field of the same name
+(`async_cross_misroute_counterexample`). -/
+theorem apply_async_cross_char (bs : List Bound) (r : Val) :
+    applyAsyncCross bs r =
+      if bs.all (fun b => b.1.ctor.isSome) then .ok (setAll (bs.map retarget) r) else .error .ctorUnknownField := by
+  induction bs generalizing r with
+  | nil => rfl
+  | cons b bs ih =>
+    simp only [applyAsyncCross, ctorStep, List.all_cons, List.map_cons, setAll, List.foldl_cons]
+    cases hc : b.1.ctor with
+    | none => simp
+    | some n =>
+      have hrt : retarget b = ({ b.1 with path := [n] }, b.2) := by simp [retarget, hc]
+      cases hb2 : b.2 with
+      | none =>
+        simp only [Option.isSome_some, Bool.true_and]
+        rw [ih r]
+        simp [setAll, hrt, refStep, hb2]
+      | some v =>
+        simp only [Option.isSome_some, Bool.true_and]
+        rw [ih _]
+        simp [setAll, hrt, refStep, hb2]
+
+/-- **cross-package request + dotted key whose terminal name is ALSO a top-level field** (request
+`acme.lib.v1.common.Sub0Request{parent, part, title}` of a service in `acme.lib.v1`, signature
+"parent,part.title"): the sync client sets `part.title`, the asyncio client silently sets the top-level
+`title` — no exception, a different request on the wire. -/
+def sPartTitle : Slot := ⟨[2, 2], false, false, false, some 7, false, false, false⟩
+theorem async_cross_misroute_counterexample :
+    call false false .none [(sPartTitle, some (.atom "T"))] = .ok (.mcons 2 (.mcons 2 (.atom "T") .mnil) .mnil) ∧
+    call false true .none [(sPartTitle, some (.atom "T"))] = .ok (.mcons 7 (.atom "T") .mnil) ∧
+    callOf "acme.lib.v1" "acme.lib.v1.common" true .none [(sPartTitle, some (.atom "T"))] = .ok (.mcons 7 (.atom "T") .mnil) := by
+  decide
+
+/-! ### a key INTO a marshalled well-known type -/
+
+/-- `ttl.seconds` (singular, owner `google.protobuf.Duration`) and `lv.values` (repeated, owner
+`google.protobuf.ListValue`) in a same-package request -/
+def sTtlSeconds : Slot := ⟨[9, 1], false, false, false, none, true, false, true⟩
+def sLvValues : Slot := ⟨[10, 1], true, false, false, none, true, false, true⟩
+
+/-- **a signature path into a well-known type that proto-plus marshals** (`ttl.seconds`, `wrapped.value`,
+`lv.values`): `request.ttl` is a python value, `request.ttl.seconds = seconds` raises AttributeError — in BOTH
+clients of a same-package request and for every value, while the request call with the field set goes through;
+an EMPTY list for the repeated key is not applied at all (no error). -/
+theorem marshalled_owner_counterexample :
+    call true false .none [(sTtlSeconds, some (.atom "5"))] = .error .attributeError ∧
+    call true true .none [(sTtlSeconds, some (.atom "5"))] = .error .attributeError ∧
+    call true false .none [(sLvValues, some (.list ["1"]))] = .error .attributeError ∧
+    call true true .none [(sLvValues, some (.list []))] = .ok .mnil ∧
+    call true true (.inst (.mcons 9 (.atom "5s") .mnil)) [(sTtlSeconds, none)] = .ok (.mcons 9 (.atom "5s") .mnil) := by
+  decide
+
+/-- a top-level key never runs into a marshalled value: the flag needs a dotted path whose last-but-one field
+sits in a proto-plus message -/
+theorem marshal_owner_needs_dotted (e : Entry) (h : e.pre = []) : e.marshalOwner = false := by
+  simp [Entry.marshalOwner, h]
+
+/-- … and for a request all of whose messages are raw protobuf classes (a dependency-package request) no key
+does: `request.timeout.seconds = seconds` assigns to the raw Duration -/
+theorem marshal_owner_needs_proto_plus_parent (e : Entry) (h : ∀ l ∈ e.pre, l.ownerPP = false) :
+    e.marshalOwner = false := by
+  unfold Entry.marshalOwner
+  cases hl : e.pre.getLast? with
+  | none => simp
+  | some l => simp [h l (List.mem_of_getLast? hl)]
+
+/-- the mapping of a path into a Duration: `ttl.seconds` resolves (the generator emits the method), the slot is
+flagged -/
+example : (match fieldsMappingP
+      [⟨"acme.R", true, [⟨"ttl", 9, .message "google.protobuf.Duration", false, false, false⟩]⟩,
+       ⟨"google.protobuf.Duration", false, [⟨"seconds", 1, .prim, false, false, false⟩]⟩]
+      false ⟨"acme.R", true, [⟨"ttl", 9, .message "google.protobuf.Duration", false, false, false⟩]⟩ [["ttl", "seconds"]] with
+    | .ok [e] => (e.key, e.param, e.marshalOwner)
+    | _ => ("", "", false)) = ("ttl.seconds", "seconds", true) := by decide
+
+/-! ### what a different-package request offers; where the owner flags come from -/
+
+section Aux
+theorem odInsert_mem (d : List Entry) (e x : Entry) (h : x ∈ odInsert d e) : x ∈ d ∨ x = e := by
+  unfold odInsert at h
+  split at h
+  · obtain ⟨y, hy, hxy⟩ := List.mem_map.mp h
+    by_cases hk : (y.key == e.key) = true
+    · right; simpa [hk] using hxy.symm
+    · left
+      have : x = y := by simpa [hk] using hxy.symm
+      exact this ▸ hy
+  · rcases List.mem_append.mp h with h | h
+    · exact Or.inl h
+    · exact Or.inr (by simpa using h)
+
+theorem odBuild_mem_gen (es d : List Entry) (x : Entry) (h : x ∈ es.foldl odInsert d) : x ∈ d ∨ x ∈ es := by
+  induction es generalizing d with
+  | nil => exact Or.inl h
+  | cons e es ih =>
+    rcases ih (odInsert d e) h with h | h
+    · rcases odInsert_mem d e x h with h | h
+      · exact Or.inl h
+      · exact Or.inr (by simp [h])
+    · exact Or.inr (by simp [h])
+
+theorem yielded_cross_primitive (sch : Schema) (input : MsgDef) (paths : List (List String)) (es : List Entry)
+    (h : yielded sch true input paths = .ok es) : ∀ e ∈ es, e.field.isPrimitive = true := by
+  induction paths generalizing es with
+  | nil => simp [yielded] at h; subst h; simp
+  | cons segs more ih =>
+    simp only [yielded] at h
+    cases hg : getField sch input segs with
+    | error e => simp [hg] at h
+    | ok pl =>
+      obtain ⟨pre, last⟩ := pl
+      simp only [hg] at h
+      cases hy : yielded sch true input more with
+      | error e => simp [hy] at h
+      | ok es' =>
+        simp only [hy, Bool.true_and] at h
+        by_cases hp : last.field.isPrimitive = true
+        · simp [hp] at h
+          subst h
+          intro e he
+          rcases List.mem_cons.mp he with rfl | he
+          · exact hp
+          · exact ih es' hy e he
+        · simp [hp] at h
+          subst h
+          exact ih es' hy
+end Aux
+
+/-- **a request of a DIFFERENT package offers only primitive fields** — whichever layout makes it different
+(dependency package, sub-package of the API, the package above the service's): message, enum, map and
+`struct_pb2.Value` fields named in a signature are dropped, every parameter that IS offered is a scalar or a
+repeated scalar (so the `Value` special case and protobuf's message-assignment rule never apply there). -/
+theorem cross_package_offers_only_primitive (sch : Schema) (input : MsgDef) (paths : List (List String))
+    (es : List Entry) (h : fieldsMappingP sch true input paths = .ok es) :
+    ∀ e ∈ es, e.field.isPrimitive = true ∧ (e.slot input).isMsg = false := by
+  unfold fieldsMappingP at h
+  cases hy : yielded sch true input paths with
+  | error e => simp [hy] at h
+  | ok ys =>
+    simp only [hy, Except.ok.injEq] at h
+    subst h
+    intro e he
+    have hm : e ∈ ys := by
+      rcases odBuild_mem_gen ys [] e he with h | h
+      · simp at h
+      · exact h
+    have hp := yielded_cross_primitive sch input paths ys hy e hm
+    refine ⟨hp, ?_⟩
+    simp only [Entry.slot, Field.isSingularMessage]
+    have : e.field.kind = .prim := by simpa [Field.isPrimitive] using hp
+    simp [this]
+
+/-- the same, stated for a layout: the request declared in a sub-package below the service's package -/
+theorem sub_package_request_offers_only_primitive (n : Naming) (svc sub : String) (sch : List PMsg) (input : PMsg)
+    (sigs : List String) (es : List Entry) (hp : input.pkg = svc ++ "." ++ sub)
+    (h : mappingOf n svc sch input sigs = .ok es) : ∀ e ∈ es, e.field.isPrimitive = true := by
+  unfold mappingOf fieldsMapping at h
+  rw [hp, sub_package_request_is_cross] at h
+  exact fun e he => (cross_package_offers_only_primitive _ _ _ es h e he).1
+
+
+section Aux
+theorem getField_links_from (sch : Schema) (segs : List String) : ∀ (m : MsgDef) (pre : List Link) (last : Link),
+    getField sch m segs = .ok (pre, last) →
+    ∀ l ∈ pre ++ [last], ∃ d, (d = m ∨ d ∈ sch) ∧ d.full = l.owner ∧ d.protoPlus = l.ownerPP := by
+  induction segs with
+  | nil => intro m pre last h; simp [getField] at h
+  | cons seg rest ih =>
+    intro m pre last h
+    cases rest with
+    | nil =>
+      simp only [getField] at h
+      cases hl : m.lookup (segKey seg) with
+      | none => simp [hl] at h
+      | some f =>
+        simp only [hl, Except.ok.injEq, Prod.mk.injEq] at h
+        obtain ⟨rfl, rfl⟩ := h
+        intro l hl'
+        simp at hl'
+        subst hl'
+        exact ⟨m, Or.inl rfl, rfl, rfl⟩
+    | cons seg' rest' =>
+      simp only [getField] at h
+      cases hl : m.lookup (segKey seg) with
+      | none => simp [hl] at h
+      | some f =>
+        simp only [hl] at h
+        by_cases hr : f.repeated = true
+        · simp [hr] at h
+        · simp only [hr, Bool.false_eq_true, if_false] at h
+          cases hk : f.kind with
+          | prim => simp [hk] at h
+          | enum => simp [hk] at h
+          | message full =>
+            simp only [hk] at h
+            cases hf : findMsg sch full with
+            | none => simp [hf] at h
+            | some sub =>
+              simp only [hf] at h
+              cases hg : getField sch sub (seg' :: rest') with
+              | error e => simp [hg] at h
+              | ok pl =>
+                obtain ⟨pre', last'⟩ := pl
+                simp only [hg, Except.ok.injEq, Prod.mk.injEq] at h
+                obtain ⟨rfl, rfl⟩ := h
+                have hsub : sub ∈ sch := List.mem_of_find?_eq_some hf
+                intro l hl'
+                simp only [List.cons_append, List.mem_cons] at hl'
+                rcases hl' with rfl | hl'
+                · exact ⟨m, Or.inl rfl, rfl, rfl⟩
+                · obtain ⟨d, hd, h1, h2⟩ := ih sub pre' last' hg l hl'
+                  rcases hd with rfl | hd
+                  · exact ⟨d, Or.inr hsub, h1, h2⟩
+                  · exact ⟨d, Or.inr hd, h1, h2⟩
+end Aux
+
+/-- **the owner flag of every link is derived from a package**: in the schema built from the packages of the
+declaring files (`PMsg.toMsgDef`), every message `get_field` walks through is a message of the schema (or the
+request itself), and its proto-plus flag is `isProtoPlusType` of the package it is declared in. -/
+theorem derived_owner_flags (n : Naming) (ps : List PMsg) (input : PMsg) (segs : List String)
+    (pre : List Link) (last : Link)
+    (h : getField (ps.map (PMsg.toMsgDef n)) (input.toMsgDef n) segs = .ok (pre, last)) :
+    ∀ l ∈ pre ++ [last], ∃ pm, (pm = input ∨ pm ∈ ps) ∧ pm.full = l.owner ∧ l.ownerPP = isProtoPlusType n pm.pkg := by
+  intro l hl
+  obtain ⟨d, hd, h1, h2⟩ := getField_links_from _ segs _ pre last h l hl
+  rcases hd with rfl | hd
+  · exact ⟨input, Or.inl rfl, h1, h2.symm⟩
+  · obtain ⟨pm, hpm, rfl⟩ := List.mem_map.mp hd
+    exact ⟨pm, Or.inr hpm, h1, h2.symm⟩
+
+/-- hence **a key that ends in a message declared in the API's package or in any of its sub-packages never has a
+raw owner** (message names are unique in a descriptor pool: `hu`), whatever the layout of service and request:
+its repeated fields are assigned by the first pass of a same-package sync client and its message fields may be
+assigned. -/
+theorem api_message_owner_not_raw (n : Naming) (ps : List PMsg) (input : PMsg) (segs : List String)
+    (pre : List Link) (last : Link)
+    (h : getField (ps.map (PMsg.toMsgDef n)) (input.toMsgDef n) segs = .ok (pre, last))
+    (hu : ∀ pm, (pm = input ∨ pm ∈ ps) → pm.full = last.owner →
+      pm.pkg = n.protoPackage ∨ ∃ sub, pm.pkg = n.protoPackage ++ "." ++ sub) :
+    (Entry.slot (input.toMsgDef n) ⟨segs, pre, last⟩).rawOwner = false := by
+  obtain ⟨pm, hpm, h1, h2⟩ := derived_owner_flags n ps input segs pre last h last (by simp)
+  have : last.ownerPP = true := by
+    rw [h2]
+    rcases hu pm hpm h1 with hp | ⟨sub, hp⟩
+    · rw [hp]; exact api_package_is_proto_plus n
+    · rw [hp]; exact sub_package_is_proto_plus n sub
+  simp [Entry.slot, this]
+
+/-- non-vacuity: `part.marks` of a request in `acme.lib.v1.admin` whose `part` is an `acme.lib.v1.common.Part` -/
+example :
+    let n : Naming := ⟨"acme.lib.v1", []⟩
+    let part : PMsg := ⟨"acme.lib.v1.common", "acme.lib.v1.common.Part", [⟨"marks", 1, .prim, true, false, false⟩]⟩
+    let rq : PMsg := ⟨"acme.lib.v1.admin", "acme.lib.v1.admin.Req", [⟨"part", 2, .message "acme.lib.v1.common.Part", false, false, false⟩]⟩
+    (match getField ([part, rq].map (PMsg.toMsgDef n)) (rq.toMsgDef n) ["part", "marks"] with
+     | .ok (pre, last) => (pre.map (·.ownerPP), last.owner, last.ownerPP)
+     | .error _ => ([], "", false)) = ([true], "acme.lib.v1.common.Part", true) := by decide
+
+/-- non-vacuity of `cross_package_offers_only_primitive` / `sub_package_request_offers_only_primitive`: a request of
+`acme.lib.v1.common` called through a service of `acme.lib.v1`, signature "parent,part,tags,part.marks" — the
+message-typed `part` is dropped, the scalars and repeated scalars (top-level and dotted) are offered -/
+example :
+    let n : Naming := ⟨"acme.lib.v1", []⟩
+    let part : PMsg := ⟨"acme.lib.v1.common", "acme.lib.v1.common.Part", [⟨"marks", 1, .prim, true, false, false⟩]⟩
+    let rq : PMsg := ⟨"acme.lib.v1.common", "acme.lib.v1.common.Req",
+      [⟨"parent", 1, .prim, false, false, false⟩, ⟨"part", 2, .message "acme.lib.v1.common.Part", false, false, false⟩,
+       ⟨"tags", 3, .prim, true, false, false⟩]⟩
+    (match fieldsMappingP ([part, rq].map (PMsg.toMsgDef n)) (crossPkgOf rq.pkg "acme.lib.v1") (rq.toMsgDef n)
+        [["parent"], ["part"], ["tags"], ["part", "marks"]] with
+     | .ok es => es.map (fun e => (e.key, e.field.isPrimitive, (e.slot (rq.toMsgDef n)).rawOwner))
+     | .error _ => []) = [("parent", true, false), ("tags", true, false), ("part.marks", true, false)] := by decide
 
 end GapicModel.Props.C05
